@@ -15,3 +15,21 @@ def tie_text():
     for n in ("qcreate", "qweight_call", "qweight_early", "freeze_body", "quantize_module", "quantize_loop", "mod_prints"):
         t += f"Lemma tie_{n} : src_{n} = exp_{n}. Proof. reflexivity. Qed.\n"
     return t
+
+
+SER_HEADER = """(* Tie (assembled per check): the (de)serialization code translated from the current source is the modelled one. *)
+From Coq Require Import String List ZArith Bool.
+From QV Require Import Model.Codec Model.Serial Model.SerialFacts.
+From QD Require Import GenSer.
+Import ListNotations.
+Open Scope string_scope.
+"""
+
+
+def ser_tie_text():
+    t = SER_HEADER
+    for rec in ("packed", "qbytes", "qbits"):
+        t += f"Lemma tie_flat_{rec} : @src_flat_{rec} = @flat_{rec}. Proof. reflexivity. Qed.\n"
+        t += f"Lemma tie_load_{rec} : @src_load_{rec} = @load_{rec}. Proof. reflexivity. Qed.\n"
+    t += "Lemma tie_ser_prints : src_ser_prints = exp_ser_prints. Proof. reflexivity. Qed.\n"
+    return t
